@@ -63,6 +63,7 @@ def intake(agent_dir, x, sid, prop):
     d = slot_dir("verify")
     slot_reset(d)
     ver = {}
+    profile = ""
     rc, out = sh(["git", "-C", d, "apply", os.path.join(dst, "patch.diff")])
     ver["patch_applies"] = rc == 0
     if rc != 0:
@@ -79,12 +80,18 @@ def intake(agent_dir, x, sid, prop):
         ver["tests_with_patch"] = dict(passed=passed, failed=failed)
         rc, out = sh("cargo run --offline 2>&1 | tail -15", cwd=demo, timeout=1200)
         rc2, _ = sh("cargo run --offline -q >/dev/null 2>&1", cwd=demo, timeout=1200)
+        if rc2 == 0 and "--release" in note:
+            # build-profile dependent change: the author says the demo has to run in the release profile
+            profile = "--release "
+            rc, out = sh("cargo run --release --offline 2>&1 | tail -15", cwd=demo, timeout=1800)
+            rc2, _ = sh("cargo run --release --offline -q >/dev/null 2>&1", cwd=demo, timeout=1800)
+        ver["demo_profile"] = "release" if profile else "dev"
         ver["demo_with_patch_exit"] = rc2
         ver["demo_with_patch_tail"] = out[-600:]
     slot_reset(d)
     shutil.rmtree(demo, ignore_errors=True)
     shutil.copytree(os.path.join(dst, "demo"), demo)
-    rc2, _ = sh("cargo run --offline -q >/dev/null 2>&1", cwd=demo, timeout=1200)
+    rc2, _ = sh(f"cargo run {profile}--offline -q >/dev/null 2>&1", cwd=demo, timeout=1800)
     ver["demo_without_patch_exit"] = rc2
     shutil.rmtree(demo, ignore_errors=True)
     ok = (ver.get("patch_applies") and ver.get("builds") and ver.get("tests_with_patch", {}).get("failed") == 0
@@ -94,7 +101,7 @@ def intake(agent_dir, x, sid, prop):
     m = dict(id=sid, property=prop, files_changed=files, valid=bool(ok), verification=ver,
              needs_to_manifest=first_para(note, ("manifest", "trigger", "needs")),
              what_was_run=["git apply patch.diff in a scratch worktree of /repo HEAD", "cargo build --offline",
-                           "cargo test --workspace --no-fail-fast --offline", "demo: cargo run --offline with and without the patch"],
+                           "cargo test --workspace --no-fail-fast --offline", "demo: cargo run [--release] --offline with and without the patch (profile recorded in verification.demo_profile)"],
              results={})
     save_meta(sid, m)
     print(sid, "valid" if ok else "INVALID", json.dumps(ver)[:600])
